@@ -80,9 +80,18 @@ func vuEmv(c Cfg, in [][]float64, lag int) [][]RV {
 		e[i] = r
 	}
 	out := vuOut(n, p)
+	hist := 0.0 // largest finite one-day term seen so far: bounds the residue of a running sum
+	for i := 1; i < p && i < n; i++ {
+		if !bad(e[i].V) {
+			hist = math.Max(hist, math.Abs(e[i].V))
+		}
+	}
 	for k := range out {
+		if i := k + p; !bad(e[i].V) {
+			hist = math.Max(hist, math.Abs(e[i].V))
+		}
 		s, ill, mag := vuWinSum(e, k+p, p)
-		out[k] = RV{V: s / float64(p), Ill: ill || bad(s), S: mag}
+		out[k] = RV{V: s / float64(p), Ill: ill || bad(s), S: math.Max(mag, Resid(hist, 1/float64(p)))}
 	}
 	return One(out)
 }
